@@ -7,6 +7,16 @@ TECH = "contract-based deductive verification: VCs generated from go/ssa of the 
 claimed = {
  "C01": ("proof", "Every implicit run-time check of Go (index, slice bounds under the strict len rule for caller/pooled memory, nil dereference, nil function call, failed type assertion, division, make), signed overflow, and termination (loop variants, recursion measures) of every function in all four packages is an obligation discharged by SMT for all inputs and all loop iterations; each registered detector function/closure is verified as an entry point with arbitrary (raw, limit) and arbitrary captured signatures; tree functions are verified against the tree invariant TI.", "5 C01",
          "library functions are assumed total and panic-free (listed in evidence); Detector values installed by Extend obey the Detector type contract; machine.len48; package initialisers are executed concretely; DetectFile/DetectReader rest on documented io/os contracts"),
+ "C02": ("proof", "On the real clone/cloneHierarchy/match/Detect* functions: results are fresh objects whose extension and aliases are those of the matched node; the MIME string equals the registered one except on text/plain, text/html, text/xml (the only types that get a parameter); the first ancestor carries the registered string unchanged; on error DetectReader/DetectFile return exactly errMIME; init facts: errMIME and root are application/octet-stream with no parent (checked on the concretely executed initialiser).", "5 C02",
+         "N/A inside: that mime.ParseMediaType accepts FormatMediaType's output for hostile charset labels is the standard library's round trip (assumed); ancestors beyond the first are covered by the loop invariant of cloneHierarchy only as far as C03 states"),
+ "C03": ("proof", "match is proved equal to the spec function leaf (first accepting child in priority order, recursively; two unfolding equations) for every tree satisfying the tree invariant TI, by a quantified loop invariant (all earlier children rejected) and the modular recursive contract; Detect/DetectReader are proved to start that walk at root on exactly the examined header; cloneHierarchy mirrors the matched node and its first ancestor; TI is established by init, preserved by Extend and by every tree function (dense allocation-frontier heap model).", "5 C03",
+         "ancestors beyond the first are not pinned field-by-field (no ghost chain); dynamically called detectors obey the Detector type contract (pure, total)"),
+ "C04": ("proof", "Frame rule: every heap store of every function under contract targets its assigns clause or an object allocated in the call (#frame); no store or in-place append into memory of an input parameter (#frame.input); pooled JSON state: top-level scan requires the reset state (Parse must reset), reset covers every field that is written during use, pool invariants are established and preserved; no function outside SetLimit/Extend/init stores to a package-level variable; pooled bufio.Reader is Reset after Get.", "5 C04",
+         "determinism of the sequential Go subset given equal read footprints is a meta-assumption; bufio.Reader.Reset discards buffered state (assumed); html tokenizer works on a private copy (assumed)"),
+ "C05": ("proof", "DetectReader is proved against documented io contracts: at most limit bytes are taken from the reader when limit > 0; a read failure other than EOF/ErrUnexpectedEOF surfaces as (errMIME, that error); otherwise err is nil and the walk runs on exactly the bytes delivered, with the same leaf contract as Detect; DetectFile returns errMIME on any error.", "5 C05",
+         "chunking schedules live inside io.ReadFull/io.ReadAll, whose documented contracts are assumed, not proved"),
+ "C06": ("other", "Lock/ownership discipline as ghost-state obligations on the real code: lock protocol (RLock/RUnlock/Lock/Unlock pairing), every read of the guarded field MIME.children under R or W and every write under W unless the object is unpublished, read-modify-write of the guarded field within one critical section, no in-place append into shared memory under a read lock, tree functions require the lock from their callers, readLimit only through sync/atomic.", "5 C06",
+         "schedule enumeration is outside this family (N/A); data-race freedom follows from the discipline by the lockset argument (meta-assumption); sync primitives are assumed"),
  "C07": ("proof", "Text and FromBOM are proved equal to the statement's predicate (BOM prefix, or no WHATWG binary data byte) for all inputs: both directions, as postconditions of the real functions with a quantified loop invariant.", "5 C07",
          "tree-level placement of the text node (last root child) is part of the tree facts of C03; bytes.HasPrefix assumed contract"),
  "C10": ("proof", "The path-stack discipline that sub-type decisions rest on is proved as postconditions of the real scanner functions: every successfully consumed value, array and object leaves p.currPath exactly as it found it (sequence equality), the stack never shrinks below its entry height, and loop invariants carry it through every iteration. Completeness of the query engine (exactly-when) is not claimed here.", "5 C10",
@@ -15,6 +25,10 @@ claimed = {
          "utf8.Valid is an uninterpreted predicate with two assumed facts: all-ASCII is valid (U1), a valid non-empty string ends in a complete well-formed sequence (U2)"),
  "C13": ("proof", "dropLastLine is proved against a complete functional contract (whole input kept below the limit; cut at the last newline otherwise); NdJSON is proved to accept only inputs all of whose lines are empty or complete JSON values, by a continuation-form loop invariant over the recursive line predicate; completeness of a line is the completeness output of json.Parse.", "5 C13",
          "CSV field semantics are encoding/csv's (assumed); linesOK recursion axioms are trusted spec; parseComplete is defined as Parse's observable completeness (determinism: C04)"),
+ "C14": ("proof", "Extend is proved to prepend exactly one fresh node with the given detector, name, extension, aliases and parent, to keep every older sibling in order behind it, to modify nothing else (frame), to hold the write lock for the publication and to preserve the tree invariant (ghost depth of the new node, depth bound raised by one); with C03's first-match contract this gives priority over older siblings.", "5 C14",
+         "the multi-level non-interference consequence (inputs rejected by every extension are classified as before) needs structural induction over the tree and is argued in DESIGN.md, not discharged"),
+ "C15": ("proof", "Is and EqualsAny are proved equal to their statement over the uninterpreted normalisation pmt (ParseMediaType's first result); lookup is proved sound (a returned node answers to the name), reflexive, and equal to the unfolded depth-first characterisation (found iff this node answers or some child's search hits).", "5 C15",
+         "invariance of ParseMediaType under case, whitespace and parameters is the standard library's (assumed)"),
  "C16": ("proof", "The recursion measure (maxRecursion + 9 - lvl, rank) of the JSON scanner SCC is input-independent; every recursive call is shown to decrease it and stay non-negative; the pool type invariant maxRecursion == 4096 is established by the pool constructor and no other instruction stores to it (whole-program scan); every caller of the scanner establishes 1 <= cap <= 65536.", "5 C16",
          "frames of the assumed libraries are iterative; the exact cap value and off-by-one variants of the guard are deliberately not pinned"),
  "C17": ("proof", "For each of the 96 non-text children of the root node, enumerated from the concretely executed package initialiser, the real detector is executed twice over one shared byte memory with len1 <= len2 (prefix by construction) and arbitrary limits; D(raw1) ==> D(raw2) is discharged per detector (font/ttf: ==> Ttf or MsAccess, its hand-over). Loops over signature tables are unrolled exactly; helper functions enter through their contracts (pure functions as uninterpreted functions).", "5 C17",
